@@ -1,9 +1,9 @@
 // Command vcheck is the single driver binary of the verification machinery:
-// one sub-command per property plus child-process workers.
+// one sub-command per property plus child-process workers. Each check package
+// is linked in by its own imports_cNN.go file in this directory.
 package main
 
 import (
-	_ "verif/checks/c19"
 	"verif/internal/vf"
 )
 
